@@ -149,6 +149,12 @@ func (ex *Exec) callBuiltin(fr *frame, name string, args []Value, c *ssa.CallCom
 		for i := 0; i < n; i++ {
 			b[i] = arr.E[off+i].(*Term)
 		}
+		// the string aliases the array: later stores into the array are
+		// reflected in b (and in every substring, which shares b's storage)
+		if ex.aliases == nil {
+			ex.aliases = map[*Object][]aliasRec{}
+		}
+		ex.aliases[p.Obj] = append(ex.aliases[p.Obj], aliasRec{off: off, b: b})
 		return &StrVal{b}
 	case "StringData": // unsafe.StringData(s)
 		s := args[0].(*StrVal)
